@@ -26,7 +26,10 @@ type Cluster struct {
 	net     *memnet.Net
 	scratch string
 	opt     raft.Options
-	hb      time.Duration
+	// how long a leader that cannot reach a majority stays in office (the
+	// library's own tests set it; 0 = step down at once)
+	quorumWait time.Duration
+	hb         time.Duration
 
 	mu    sync.Mutex
 	nodes map[uint64]*Node // current incarnation per node id
@@ -168,6 +171,9 @@ func (c *Cluster) start(nid uint64, dir string) (*Node, error) {
 		return nil, err
 	}
 	n.r = r
+	if c.quorumWait > 0 {
+		r.VerifSetQuorumWait(c.quorumWait)
+	}
 	raft.VerifRegister(r)
 	label := n.label
 	r.VerifSetDial(func(network, address string, timeout time.Duration) (net.Conn, error) {
